@@ -242,3 +242,12 @@ Fixpoint s3_stmt (x : stmt) : bool :=
   | SAllAssign _ _ | SClass _ _ _ _ _ _ | SDoc _ _ _ => false
   end.
 Definition s3_block (l : list stmt) : bool := forallb s3_stmt l.
+
+(* stage 3 of the unused side: u2 with stage-3 statements (comprehensions) *)
+Definition u3_top (x : stmt) : bool :=
+  match x with
+  | SImport _ items => forallb u1_import_item items
+  | SImportFrom _ m items => not_future m && forallb s1_from_item items
+  | _ => s3_stmt x && noimp_stmt x
+  end.
+Definition u3_block (l : list stmt) : bool := forallb u3_top l.
